@@ -2158,12 +2158,29 @@ static bool is_yaml_null_value(const char *s)
 }
 
 /*
+ * has_unicode_break: test if a string contains LS (U+2028) or PS (U+2029)
+ *
+ * Libyaml follows YAML 1.1, where these are line breaks: it writes them
+ * raw and re-indents the text that follows them.  YAML 1.2 readers treat
+ * them as ordinary characters and see the indentation as content.
+ */
+static bool has_unicode_break(const char *s)
+{
+    for (const unsigned char *p = (const unsigned char *)s; *p != 0; ++p) {
+	if (p[0] == 0xE2 && p[1] == 0x80 && (p[2] == 0xA8 || p[2] == 0xA9)) {
+	    return true;
+	}
+    }
+    return false;
+}
+
+/*
  * key_style: choose the YAML scalar style of a map key
  *   @key: quoted key
  */
 static yaml_scalar_style_t key_style(const char *key)
 {
-    if (is_yaml_null_value(key)) {
+    if (is_yaml_null_value(key) || has_unicode_break(key)) {
 	return YAML_DOUBLE_QUOTED_SCALAR_STYLE;
     }
     return YAML_ANY_SCALAR_STYLE;
@@ -2371,7 +2388,9 @@ int _vnaproperty_yaml_export(vnaproperty_yaml_t *vymlp,
 			__func__, vymlp->vyml_filename, strerror(errno));
 		return -1;
 	    }
-	    if (strchr(value, '\n') != NULL) {
+	    if (has_unicode_break(value)) {
+		style = YAML_DOUBLE_QUOTED_SCALAR_STYLE;	/* \L, \P */
+	    } else if (strchr(value, '\n') != NULL) {
 		style = YAML_LITERAL_SCALAR_STYLE;
 	    } else if (value[0] == '\000' || is_yaml_null_value(value)) {
 		style = YAML_DOUBLE_QUOTED_SCALAR_STYLE;
